@@ -698,6 +698,63 @@ def rule_l_cached_regularity_not_claimed_for_unfilled_ranges(ctx, units):
     return n
 
 
+def rule_m_move_takes_each_member_from_the_source(ctx, fns):
+    """`surviving elements keep their values` under move construction: a move constructor either exchanges whole objects (swap) or takes
+    every member it sets from THE SAME member of its source.  A member recomputed from other members (seed C11-6: `num =
+    begin_allocated_memory - start`) silently assumes a relation between them that resize/grow without reallocation breaks."""
+    RULE = "C11.m-move-takes-each-member-from-the-source"
+    n = 0
+    seen = set()
+    for f in fns:
+        if not f.is_ctor or f.body is None or len(f.params) != 1 or not f.params[0]["t"].rstrip().endswith("&&") or (f.file, f.body.line) in seen:
+            continue
+        cls = f.qn.rsplit("::", 1)[0]
+        if not any(cls.startswith(c) for c in CLASSES):
+            continue
+        seen.add((f.file, f.body.line))
+        pk = "v%d" % f.params[0]["d"]
+        swaps = [c for c in f.walk() if (c.is_call() or c.k in ("CallExpr",)) and key(c, True).split("(")[0].split("::")[-1] == "swap" and pk in key(c)]
+        sets = []  # (member, rhs node)
+        for it, node in f.inits:
+            if it.get("field") and node is not None:
+                sets.append((it.get("field"), node))
+        for m in f.body.walk():
+            if m.k in ("BinaryOperator", "CXXOperatorCallExpr") and m.op == "=" and len(m.c) >= 2:
+                l = key(m.c[-2].strip() if m.k == "CXXOperatorCallExpr" else m.c[0].strip())
+                if l.startswith("this.") and "." not in l[5:] and "(" not in l:
+                    sets.append((l[5:], m.c[-1]))
+        if swaps and not sets:
+            ctx.ob(RULE, f.qn + "(" + f.sig[:40] + ")", "exchange", True, f.where(), "default-constructs and exchanges the whole object with its source")
+            n += 1
+            continue
+        if not sets:
+            # everything delegated to base-class / member move constructors
+            ctx.ob(RULE, f.qn + "(" + f.sig[:40] + ")", "delegated", True, f.where(), "delegates to the move constructors of its bases and members")
+            n += 1
+            continue
+        bad = []
+        for member, rhs in sets:
+            r = rhs.strip()
+            for _ in range(8):
+                if r.is_call() and (r.callee or key(r, True).split("(")[0]).split("<")[0].split("::")[-1] in ("move", "forward") and r.call_args():
+                    r = r.call_args()[0].strip()
+                elif r.k in ("CXXConstructExpr", "CXXBindTemporaryExpr", "MaterializeTemporaryExpr", "CXXFunctionalCastExpr", "CXXStaticCastExpr", "ImplicitCastExpr", "ExprWithCleanups", "ParenExpr") and len(r.c) == 1:
+                    r = r.c[0].strip()
+                else:
+                    break
+            k = key(r)
+            if k == "%s.%s" % (pk, member):
+                continue
+            refs = [x for x in r.walk() if x.k in ("MemberExpr", "DeclRefExpr") and (key(x).startswith(pk + ".") or key(x).startswith("this."))]
+            if not refs:
+                continue  # a constant
+            bad.append((member, r))
+        ok = not bad
+        ctx.ob(RULE, f.qn + "(" + f.sig[:40] + ")", "member-wise", ok, (bad[0][1] if bad else f).where(), "every member it sets comes from the same member of the source (or is a constant)" if ok else "member `%s` is not taken from the source's `%s` but computed as `%s`: the moved-to object has the source's size and range but shifted contents whenever the source had been resized without reallocation" % (bad[0][0], bad[0][0], key(bad[0][1], True)[:80]))
+        n += 1
+    return n
+
+
 def run(ctx):
     ctx.explanation = (
         "Decides from the source, for VectorWithOffset, NumericVectorWithOffset and Array: (a) every raw subscript X.num[i] "
@@ -721,6 +778,8 @@ def run(ctx):
         ctx.fail_broken("no function of the array classes found")
         return
     rule_l_cached_regularity_not_claimed_for_unfilled_ranges(ctx, units[-1:])
+    rule_m_move_takes_each_member_from_the_source(ctx, defs)
+    ctx.require_count("C11.m-move-takes-each-member-from-the-source", 3)
     ctx.require_count("C11.l-regularity-not-claimed-for-unfilled-ranges", 5)
     seen_xapyb = 0
     for fn in defs:
